@@ -222,6 +222,9 @@ func runC14(c *core.Ctx) {
 	c.Knob("kind", []string{"direct", "mux", "garbage"}[kind])
 	c.Knob("oversize", oversize)
 	switch {
+	case t.Bias(1, 6, "active-tcp"):
+		c.Knob("kind", "active-tcp")
+		c14Active(c)
 	case kind == 1:
 		c14Mux(c, oversize)
 	case oversize:
@@ -772,8 +775,20 @@ func c14Mux(c *core.Ctx, oversize bool) {
 
 	uname := "ufA:peer"
 	first := tsBinding(stun.MethodBinding, stun.ClassRequest, 1, &uname, 0)
-	_, _ = cli.Write(tsEnc(first))
+	firstWire := tsEnc(first)
 	sent = append(sent, first)
+	if c.T.Bias(1, 3, "pipelined-first") {
+		// packets follow the first frame at once: the chunk that completes the first frame (chunking is the
+		// tape's) carries the beginning of the next frames
+		for j, k := 0, c.T.Range(1, 3, "pipelined.k"); j < k; j++ {
+			p := tsPayload(7, 9000+j, []int{1, 24, 300, 1000}[c.T.Choose(4, "pipelined.len")])
+			p[0] = 0x40 | p[0]&0x3f
+			firstWire = append(firstWire, tsEnc(p)...)
+			sent = append(sent, p)
+		}
+		c.Fault("frames-pipelined-behind-first-frame")
+	}
+	_, _ = cli.Write(firstWire)
 	synctest.Wait()
 
 	evaluate := func(final bool) {
